@@ -2,12 +2,13 @@ SPECIFICATION Spec
 CONSTANTS
   Ids = {1, 2, 3}
   Vias = {2340, 1, 292}
-  MaxDepth = 6
+  MaxDepth = 5
 CONSTRAINT Depth
 INVARIANT C16_Injective
 PROPERTY C16_ValidChild
 PROPERTY C16_OnlyRequesterChanges
 PROPERTY C16_ReleaseFrees
 PROPERTY C16_PersistIdentity
+PROPERTY C16_LoadRestores
 PROPERTY C16_RefuseWhenFull
 CHECK_DEADLOCK FALSE
